@@ -17,7 +17,7 @@ import (
 
 func init() {
 	Register(&Property{ID: "C06", Run: runC06,
-		Rule: "one real engine logged on (normal, recovering, test-request-pending); 6-40 peer messages of types D,0,1,2,4,5 and Logons on fresh connections, each with 0-3 planted header defects (BeginString, CompIDs wrong/missing/empty/swapped, SendingTime missing/garbled/off by MaxLatency±δ, MsgSeqNum missing/garbled/too low with and without PossDup, OrigSendingTime missing/garbled/later); CheckLatency on/off, MaxLatency varied, all BeginStrings, both roles; body field without a value; ValidateFieldsOutOfOrder=N in a fifth of the dictionary-less runs. Non-trivial: at least two defective messages and one clean control were judged; distinct: canonical trace hash"})
+		Rule: "one real engine logged on (normal, recovering, test-request-pending); 6-40 peer messages of types D,0,1,2,4,5 and Logons on fresh connections, each with 0-3 planted header defects (BeginString, CompIDs wrong/missing/empty/swapped, SendingTime missing/garbled/off by MaxLatency±δ, MsgSeqNum missing/garbled/too low with and without PossDup, OrigSendingTime missing/garbled/later); CheckLatency on/off, MaxLatency varied, all BeginStrings, both roles; body field without a value; ValidateFieldsOutOfOrder=N in a fifth of the dictionary-less runs; identity fields under tag numbers that overflow an int, MsgSeqNum 2^64+n. Non-trivial: at least two defective messages and one clean control were judged; distinct: canonical trace hash"})
 }
 
 type c06Defect struct {
